@@ -33,6 +33,7 @@ func (s Scn) setRef(i int, ctrl bool) verifphase.Ref {
 // random schedule of reconciles, third-party operations, lifecycle changes and deletions.
 func Random(r *rand.Rand, local bool) Scn {
 	s := Scn{Cluster: r.Intn(4) == 0}
+	delegate := !local && r.Intn(3) != 0 // scenarios with delegated phases
 	nsets := 1 + r.Intn(3)
 	names := []string{"a", "b", "c", "d"}
 	for i := 0; i < nsets; i++ {
@@ -59,6 +60,9 @@ func Random(r *rand.Rand, local bool) Scn {
 		used := 0
 		for p := 0; p < nph && used < len(names); p++ {
 			ph := PhaseSpec{Name: fmt.Sprintf("p%d", p+1)}
+			if delegate && r.Intn(2) == 0 {
+				ph.Class = "default"
+			}
 			nobj := 1 + r.Intn(2)
 			for o := 0; o < nobj && used < len(names); o++ {
 				po := verifphase.PObj{Kind: "NsThing", Name: names[used], CP: pick(r, []string{"Prevent", "Prevent", "IfNoController", "None", ""}),
@@ -194,8 +198,29 @@ func Random(r *rand.Rand, local bool) Scn {
 		}
 		return e
 	}
+	var phaseNames []string
+	for _, sp := range s.Sets {
+		for _, ph := range sp.Phases {
+			if ph.Class != "" {
+				phaseNames = append(phaseNames, sp.Name+"-"+ph.Name)
+			}
+		}
+	}
+	if len(phaseNames) > 0 {
+		nsteps += 4
+	}
 	for i := 0; i < nsteps; i++ {
 		set := pick(r, s.Sets).Name
+		if len(phaseNames) > 0 && r.Intn(3) == 0 {
+			st := Step{Op: "phase", Set: pick(r, phaseNames)}
+			if r.Intn(8) == 0 {
+				e := envOp()
+				e.At = r.Intn(3)
+				st.Env = []verifphase.EnvOp{e}
+			}
+			s.Steps = append(s.Steps, st)
+			continue
+		}
 		switch x := r.Intn(20); {
 		case x < 11:
 			st := Step{Op: "reconcile", Set: set}
@@ -230,7 +255,13 @@ func Tags(s Scn, out string) []string {
 	if s.Cluster {
 		t = append(t, "cluster")
 	}
-	for _, w := range []string{"R ok", "R err", "R requeue", "A ", "M ", "D ", "Conflict", "CollisionDetected", "PreflightError", "ProbeFailure",
+	for _, st := range s.Steps {
+		if st.Op == "phase" {
+			t = append(t, "phase-step")
+			break
+		}
+	}
+	for _, w := range []string{"C ObjectSetPhase", "C ClusterObjectSetPhase", "X ", "P ", "PartiallyPaused", "R ok", "R err", "R requeue", "A ", "M ", "D ", "Conflict", "CollisionDetected", "PreflightError", "ProbeFailure",
 		"Available=True", "Succeeded=True", "InTransition=True", "Archived=True", "Archived=False", "Paused=True", "F os", "!Conflict"} {
 		if strings.Contains(out, w) {
 			t = append(t, "out~"+strings.TrimSpace(w))
